@@ -90,4 +90,5 @@ Definition entries : list (Z * (data -> data)) :=
     (1008, fun d => elist e_atom (values (d_spec d)));
     (1009, fun d => L [I (q_int_normalized (dZ (dnth 0 d)) (dZ (dnth 1 d)) (d_Q (dnth 2 d)))]);
     (1010, fun d => eopt e_atom (q_cat_normalized (dmap d_atom (dnth 0 d)) (d_Q (dnth 1 d))));
-    (1011, fun d => eopt e_atom (inactive_value (d_spec d))) ].
+    (1011, fun d => eopt e_atom (inactive_value (d_spec d)));
+    (1012, fun d => elist eZ (filter_dup (dmap dZ (dnth 0 d)) (dmap dZ (dnth 1 d)))) ].
